@@ -245,7 +245,7 @@ class Report:
             cases = self.class_cases.get(cls, 0)
             if cases:
                 rates[f'{fid}/{cls}'] = [n, cases, round(n / cases, 4)]
-            rcs = [rc for rc in self.known.get(fid, {}).get('rate_ceilings', [])
+            rcs = [rc for rc in (self.known.get(fid, {}).get('rate_ceilings') or [])
                    if rc.get('property') in (None, self.prop) and rc.get('class') == cls]
             if not rcs:
                 rcs = [{'max_per_case': DEFAULT_CLASS_CEILING, 'min_cases': 100, 'measured': '< 0.02 on the unchanged tree'}]
